@@ -125,6 +125,29 @@ def run_job(job):
     return ezsprig.run_script(version, script)
 
 
+def run_wrap(job):
+    """a call times out; 255 further commands complete, so the next call reuses its sequence number; that call's reply comes late
+    but within its own timeout"""
+    version, gap_ms, delay_ms = job
+
+    async def script(rig):
+        d = Driver(rig)
+        await d.call("getNodeId")
+        await d.react("tick")                       # the command timeout
+        for _ in range(255):
+            await d.call("nop")
+            await d.react("reply")
+        for ev in await rig.advance(gap_ms):
+            d.absorb(ev)
+        await d.call("getNodeId")                   # same sequence number as the timed-out call
+        for ev in await rig.advance(delay_ms):
+            d.absorb(ev)
+        await d.react("reply")
+        await d.call("readCounters")
+        await d.react("reply")
+    return ezsprig.run_script(version, script)
+
+
 def run_random(job):
     version, seed, ncmds = job
     import random
@@ -210,6 +233,10 @@ def run(ctx: Ctx):
     rng = ctx.rng
     for i in range(16 if ctx.quick else 160):
         jobs.append(("r", (VERSIONS[i % len(VERSIONS)], rng.randrange(1 << 30), 600)))
+    # sequence-number reuse after a timed-out call: the later call's reply arrives late, but in time
+    tmo = int(c["CmdTimeout"])
+    for i, (gap, delay) in enumerate(itertools.product((0, tmo // 2, tmo - 100, tmo + 100), (100, tmo // 2 + 1000, tmo - 100))):
+        jobs.append(("w", (VERSIONS[i % len(VERSIONS)], gap, delay)))
     metas = [{"kind": j[0], "args": j[1]} for j in jobs]
     traces = pmap(_run, jobs, chunksize=16)
     ctx.evaluations = len(traces)
@@ -217,7 +244,8 @@ def run(ctx: Ctx):
     ctx.rule = (f"a blocker call plus every triple of callers from the three priority classes (27) x every sequence of {R} environment reactions "
                 "(reply, command timeout, duplicate reply, callback, cancel the holder / a queued caller, link failure or delay of the next send, "
                 "misnumbered reply, invalidCommand) on protocol versions 4..14 in rotation; random runs of 600 commands that wrap the sequence "
-                "number twice with late/duplicate/misnumbered replies, link failures and cancellations; distinct = distinct script")
+                "number twice with late/duplicate/misnumbered replies, link failures and cancellations; a timed-out call, 255 further commands, then a call under "
+                "the same sequence number whose reply comes late but in time (12 timings); distinct = distinct script")
     ctx.add_sample({"meta": metas[7], "trace": [{k: v for k, v in e.items() if k != "raw"} for e in traces[7]]})
     for t in traces:
         for e in t:
@@ -235,7 +263,7 @@ def run(ctx: Ctx):
 
 
 def _run(job):
-    return run_job(job[1]) if job[0] == "e" else run_random(job[1])
+    return run_job(job[1]) if job[0] == "e" else run_wrap(job[1]) if job[0] == "w" else run_random(job[1])
 
 
 def replay(ctx: Ctx, data):
